@@ -231,6 +231,16 @@ def load_known():
     return known, fixed
 
 
+def _uniq(xs):
+    seen, out = set(), []
+    for x in xs:
+        k = json.dumps(x, sort_keys=True, default=str)
+        if k not in seen:
+            seen.add(k)
+            out.append(x)
+    return out
+
+
 def finish(ctx, meta):
     """Classify violations, replay new ones, write evidence, print verdict, return exit code."""
     res = ctx.result
@@ -297,7 +307,7 @@ def finish(ctx, meta):
         evaluations=evaluations,
         distinct_nontrivial=int(st.get('nontrivial', 0)),
         rule=meta.get('rule', ''),
-        samples=res.samples[:12] if res.samples else [],
+        samples=_uniq(res.samples)[:12] if res.samples else [],
         exhaustive=bool(exhaustive),
         partitions_finished=res.done,
         partitions=res.parts,
